@@ -173,6 +173,23 @@ def handleServeW (args : List String) : Option Out :=
     pure (serveW { ns := ns, localBare := lb, jidCanon := jidOracle jm } left toks progs)
   | _ => none
 
+/-- `servewm <mode> <left> <ns> <localBare> <jidmap> <toks> <progs>`: write faults behind the
+multiplexer (`r` = handlers registered, `u` = nothing registered) -/
+def handleServeWM (args : List String) : Option Out :=
+  match args with
+  | [mode, left, ns, lb, jm, toks, progs] => do
+    let left ← left.toNat?
+    let ws := decWs ns
+    let ns ← decNs ns
+    let lb ← unhexF (if lb == "-" then "" else lb)
+    let jm ← decJidMap jm
+    let toks ← (decToks toks).map (wsInput ws)
+    let progs ← decProgs progs
+    if mode == "r" || mode == "u" then
+      pure (serveWM (mode == "r") { ns := ns, localBare := lb, jidCanon := jidOracle jm } left toks progs)
+    else none
+  | _ => none
+
 def handleServe (args : List String) : Option Out :=
   match args with
   | [ns, lb, jm, toks, progs] => do
